@@ -95,10 +95,19 @@ class VC:
                     k, v = elt(x)
                     out[k] = v
             return out
-        hook = C.ghost.get("dictcomp")
-        if hook is None:
-            raise Unsupported("dict comprehension over a symbolic collection")
-        return hook(iterable, elt, cond)
+        col = iterable._vc_iter()
+        v = bv("v!dc", col.sort)
+        xx = col.elem(v)
+        with sym.Binder(v, col.pred(v)):
+            c = cond(xx) if cond is not None else True
+        ct = sym.tb(c)
+        with sym.Binder(v, z3.And(col.pred(v), ct)):
+            k, val = elt(xx)
+        if not (isinstance(k, sym.STerm) or isinstance(k, sym.SInt)) or not z3.eq(k.t, v):
+            raise Unsupported("dict comprehension whose key is not the iteration variable")
+        vt = sym.term(val, sym.Val) if not isinstance(val, (sym.SInt, sym.SBool)) else val.t
+        m = sym.SMap(col.sort, vt.sort(), z3.Lambda([v], z3.And(col.pred(v), ct)), z3.Lambda([v], vt), name="dictcomp")
+        return m
 
     def await_(self, x):
         if isinstance(x, SAwaitable):
@@ -227,6 +236,8 @@ _BUILTIN_OVERRIDES = {
     "list": sym.vc_list,
     "bool": sym.vc_bool,
     "isinstance": sym.vc_isinstance,
+    "enumerate": sym.vc_enumerate,
+    "tuple": sym.vc_tuple,
 }
 
 
